@@ -76,7 +76,7 @@ structure Cfg where
   d24 : Bool := true
   deriving DecidableEq, Repr
 
-def Cfg.asIs : Cfg := {}
+def Cfg.asIs : Cfg := { d24 := false }   -- D24 is repaired in /repo (Reversed::is_adjacent looks the reversed edge up); D23 is still present
 def Cfg.ideal : Cfg := { d23 := false, d24 := false }
 
 /-- node filter: bit `a` of the mask (harness: closure, `FixedBitSet` or `HashSet` with the same members) -/
